@@ -524,3 +524,79 @@ def zero_test_edges(fn, terms, value_pred):
             zero.append((bb, M.switch_target(t, 0)))
             nonzero.append((bb, t["otherwise"]))
     return zero, nonzero
+
+
+def cond_edges(fn, terms, atom):
+    """edges on which a boolean condition holds / does not hold.  atom(term) -> +1 if the term *is* the
+    condition, -1 if it is its negation, 0 otherwise; `!x` wrappers are peeled (polarity flips)."""
+    def pol(t):
+        sign = 1
+        while t[0] == "un" and t[1] == "Not":
+            t = t[2]
+            sign = -sign
+        return sign * atom(t)
+    true_e, false_e = [], []
+    for bb in sorted(fn.live_blocks()):
+        t = fn.blocks[bb]["term"]
+        if t["k"] != "switch" or t.get("dty") != "bool":
+            continue
+        r = M.switch_operand_def(fn, bb)
+        term = terms.rvalue(r) if r is not None else terms.operand(t["d"])
+        sgn = pol(term)
+        if sgn == 0:
+            continue
+        f_tgt, t_tgt = M.switch_target(t, 0), M.switch_target(t, 1)
+        if f_tgt == t_tgt:
+            continue
+        if sgn > 0:
+            true_e.append((bb, t_tgt))
+            false_e.append((bb, f_tgt))
+        else:
+            true_e.append((bb, f_tgt))
+            false_e.append((bb, t_tgt))
+    return true_e, false_e
+
+
+def option_none_edges(fn, terms, place_pred):
+    """edges taken exactly when an Option-valued place (term satisfying place_pred, references peeled) is None:
+    a discriminant switch (value 0), `is_none()` true, or `is_some()` false"""
+    out = variant_edges(fn, terms, lambda t: place_pred(M.noref(M.strip(t))) or place_pred(M.noref(t)), 0, [0, 1], "std::option::Option<")
+
+    def atom(t):
+        if t[0] == "call" and t[2] and place_pred(M.noref(M.strip(t[2][0]))) or (t[0] == "call" and t[2] and place_pred(M.noref(t[2][0]))):
+            if t[1] == "std::option::Option::<T>::is_none":
+                return 1
+            if t[1] == "std::option::Option::<T>::is_some":
+                return -1
+        return 0
+    te, fe = cond_edges(fn, terms, atom)
+    return out + te
+
+
+def reported_status_is_recorded(ctx, prog, rule):
+    """every status handed out by the wait family comes out of self.child_state's Finished payload — so
+    whenever termination has been *reported* (also `Undetermined` after someone else reaped the child) the
+    handle *is* Finished, pid() is gone and no later call can signal or wait on the stale pid"""
+    want = ("field", ("downcast", self_field("child_state"), "Finished"), "0")
+    for name in ("os_wait_timeout", "os_wait"):
+        f = prog.one(name)
+        T = M.Terms(f)
+        n = 0
+        for (bb, si, v, r) in result_variants(f, M.Explore(f)):
+            if v != "Ok":
+                continue
+            pay = T.operand(r["ops"][0])
+            # Ok(status) | Ok(Some(status)) | Ok(None)
+            if pay[0] == "agg" and pay[1][:3] == ("adt", "std::option::Option", "Some"):
+                pay = pay[2][0]
+            elif pay[0] == "agg" and pay[1][:3] == ("adt", "std::option::Option", "None"):
+                continue
+            n += 1
+            src = pay
+            # through the pure projection exit_status().unwrap()
+            s_ = M.strip(src)
+            ok = src == want or (s_[0] == "call" and s_[1] == "popen::Popen::exit_status" and M.noref(s_[2][0]) == ("param", 1, f.local_name(1)))
+            ctx.ob(rule, "%s.reported=recorded#%d" % (name, n), ok, f.loc(bb, si if si != "term" else None),
+                   "%s returns the status %s: a reported status must be read out of self.child_state (Finished), never produced on the side while the state stays Running"
+                   % (name, M.term_str(pay)[:80]))
+        ctx.floor(rule, "%s status returns" % name, n, 1)
